@@ -64,8 +64,30 @@ def nullvec(rows, n):
     return h
 
 
+def dependent_sources(rng, A):
+    """sources that are not linearly independent (gen_A only makes full-rank matrices): two LEDs of the same type with different
+    power (a column is a dyadic multiple of another), or a broadband source whose capture is a mixture of two others. The
+    intensities reproducing a target are then not unique; the gamut is the same zonotope of the corner images. Exact (dyadic)."""
+    ns = A.shape[1]
+    A = A.copy()
+    kind = "duplicate" if (ns < 3 or rng.integers(3) > 0) else "mixture"
+    idx = rng.permutation(ns)
+    if kind == "duplicate":
+        i, j = int(idx[0]), int(idx[1])
+        A[:, j] = A[:, i] * float(rng.choice([0.5, 0.75, 1.0, 1.0, 1.5, 2.0]))
+    else:
+        i, i2, j = int(idx[0]), int(idx[1]), int(idx[2])
+        A[:, j] = A[:, i] * float(rng.choice([0.25, 0.5, 1.0])) + A[:, i2] * float(rng.choice([0.25, 0.5, 1.0]))
+    return kind, A
+
+
 def gen_system(rng, si=None):
     nf = int(rng.integers(2, 6)); ns = int(rng.integers(1, 9))
+    # linearly dependent sources are a deterministic share of the systems (every 5th: si = 2, 7, 12, ...; gen_A never makes them) plus
+    # a random eighth of the others; every other one of the deterministic share is a bounded rig with fewer sources than receptor types
+    flatdep = si is not None and si % 10 == 2
+    if flatdep:
+        nf = max(nf, 3); ns = int(rng.integers(2, nf))
     A = gen_A(rng, nf, ns, lo=0.25, hi=4.0, bits=2, zeros=bool(rng.integers(3) == 0))
     kk, K = gen_K(rng, nf, kinds=("none", "scalar", "vector", "matrix", "matrix_signed", "matrix_opponent"))
     if kk in ("matrix_signed", "matrix_opponent"):
@@ -92,12 +114,19 @@ def gen_system(rng, si=None):
     if ubk == "inf" and (forced or rng.integers(2) == 0):
         kk = "matrix_signed" if rng.integers(2) else "matrix_opponent"
         K = signed_K(rng, nf, kk)
+    dep = "independent"
+    if flatdep:
+        ubk = str(rng.choice(["finite", "whole"]))
+    if ns >= 2 and not forced and ((si is not None and si % 5 == 2) or rng.integers(8) == 0):
+        dep, A = dependent_sources(rng, A)
+        if Ak == "whole" and not np.all(A == np.round(A)):
+            Ak = "dyadic"
     lbk = str(rng.choice(["zero", "zero", "zero", "pos", "pos", "whole"]))
     # whole-number bounds (lb = 0 or [0, 1, 2], ub = [1, 3, 2]) are the ones a caller writes as integers
     lb = np.zeros(ns) if lbk == "zero" else (dyadic(rng, 0.0625, 0.25, 4, size=ns) if lbk == "pos" else dyadic(rng, 0, 2, 0, size=ns))
     lb0 = lb if lbk == "whole" else np.zeros(ns)
     ub = (lb0 + dyadic(rng, 0.5, 4, 2, size=ns)) if ubk == "finite" else ((lb0 + dyadic(rng, 1, 4, 0, size=ns)) if ubk == "whole" else np.full(ns, np.inf))
-    return dict(nf=nf, ns=ns, A=A, A_kind=Ak, K=K, K_kind=kk, baseline=base, baseline_kind=bk, lb=lb, ub=ub, ub_kind=ubk, lb_kind=lbk)
+    return dict(nf=nf, ns=ns, A=A, A_kind=Ak, K=K, K_kind=kk, baseline=base, baseline_kind=bk, lb=lb, ub=ub, ub_kind=ubk, lb_kind=lbk, sources=dep)
 
 
 def held(rng, S, R):
@@ -127,6 +156,11 @@ def run(R):
               "'interior_bright' targets, captures of in-bound intensities 2^6..2^17 units above the lower bounds (all or some of the sources bright); "
               "plain, relative and "
               "L1-normalised membership via in_hull_from_A and ReceptorEstimator.in_hull / in_gamut, batched and as a single 1-D target (any one of the targets). "
+              "Linearly dependent sources (every 5th system and a random eighth of the others): two sources of the same type with different power "
+              "(proportional columns of A) or a source that is a mixture of two others -- every 10th system is such a rig with finite bounds and fewer sources "
+              "than receptors; the intensities reproducing a target are then not unique, the certificates (box coordinates, corner weights, separators) are unchanged. "
+              "Flat bounded gamuts also get targets that leave the gamut within its affine span (beyond the bounds; supporting hyperplane in a direction of the "
+              "column span, sepCert; kinds *_inspan). "
               "Whole-number A / lb / ub variants; A, filters, lb, ub, K, baseline and targets are handed over as float or (whole numbers) "
               "integer arrays, Fortran-ordered, strided views or lists (as_given); the model gets the values. Every call is checked for the "
               "frame condition (arguments and registered estimator state unchanged by a query). Histories, bounded and unbounded: the same "
@@ -192,6 +226,7 @@ def run(R):
             targets.append(dict(kind="vertex", b=bf, be=be, expect=True, cert=("weights", w)))
         # supporting hyperplanes
         normals = []
+        inspan = set()
         if finite and fulldim:
             try:
                 hull = ConvexHull(Pf)
@@ -205,6 +240,16 @@ def run(R):
             rank = int(np.sum(s > 1e-9 * ext))
             if rank < nf:
                 normals = [Vt[-1]]
+            if finite and rank >= 1:
+                # flat bounded gamut: besides leaving its affine span, a target can leave it WITHIN the span (beyond the bounds):
+                # directions in the span of the transformed capture matrix's columns; the supporting hyperplane of the corner
+                # images in that direction is the certificate, as for the facet normals of a full-dimensional gamut
+                Apf = np.array([[float(v) for v in row] for row in Ap])
+                for _ in range(2):
+                    hn_ = Apf @ (dyadic(rng, -1, 1, 3, size=ns) if rng.integers(2) else np.eye(ns)[int(rng.integers(ns))])
+                    if np.linalg.norm(hn_) > 1e-6 * ext:
+                        normals.append(hn_ / np.linalg.norm(hn_))
+                        inspan.add(len(normals) - 1)
         if (not finite) and fulldim:
             # unbounded sources: the gamut is the cone p0 + cone(columns of A') with apex p0 = image of lb. Its facets are the
             # facets of the corner images' hull through p0. For each, an EXACT rational normal h (null vector of the columns lying
@@ -250,7 +295,7 @@ def run(R):
                     if margin <= 0:
                         continue
                     targets.append(dict(kind=kind, b=bf, be=be, expect=False, cert=("sep", h, c), dist=float(margin) / float(np.sqrt(float(hh))), cone=True))
-        for hn in normals:
+        for hi_, hn in enumerate(normals):
             h = [F(float(np.round(v * 2 ** 20) / 2 ** 20)) for v in hn]
             if all(v == 0 for v in h):
                 continue
@@ -265,7 +310,7 @@ def run(R):
                     continue
                 dist = float(margin) / float(np.sqrt(float(hh)))
                 if finite or not fulldim:
-                    targets.append(dict(kind=kind, b=bf, be=be, expect=False, cert=("sep", h, c), dist=dist))
+                    targets.append(dict(kind=kind + ("_inspan" if hi_ in inspan else ""), b=bf, be=be, expect=False, cert=("sep", h, c), dist=dist))
         if not targets:
             R.count("no-exactly-representable-target")
             continue
@@ -403,6 +448,10 @@ def run(R):
                  targets=[dict(kind=t_["kind"], b=t_["b"], expect=t_["expect"]) for t_ in targets])
         for key in ("via", "K_kind", "baseline_kind"):
             R.count("%s:%s" % (key, c[key]))
+        R.count("sources:" + S["sources"])
+        if S["sources"] != "independent":
+            R.count("dependent-sources:%s:%s:%s" % ("bounded" if finite else "unbounded", "fewer sources than receptors" if S["ns"] < S["nf"] else "sources >= receptors",
+                                                     "full-dimensional gamut" if fulldim else "flat gamut"))
         R.count("ub:" + S["ub_kind"]); R.count("lb:" + S["lb_kind"]); R.count("A:" + S["A_kind"]); R.count("fulldim:%s" % bool(fulldim))
         for p_ in paths:
             R.count("path:" + p_)
